@@ -249,10 +249,11 @@ def run(chk):
         chk.judged((m[0], "t", "".join(e["ident"]), "".join(e["rename"]), e["rule"]))
     compose.run(chk, "keys")
     compose.run_members(chk, "keys")
+    compose.run_variants(chk, "keys")
 
 
 def replay(chk, rec):
-    if "compose" in rec.get("case", {}):
+    if any(k in rec.get("case", {}) for k in ("compose", "members", "variants")):
         return compose.replay(chk, rec, "keys")
     c = rec["case"]
     silent = common.Check(chk.pid, chk.tier, chk.seed)
